@@ -56,6 +56,13 @@ func c05Gen(tier string, seed uint64, i int) any {
 		// trailing bytes that look like the start of another action
 		return fmt.Sprintf("%x", append([]byte{0, 0, 0, 16}, r.Bytes(r.Pick(4, 12, 20))...))
 	}
+	if i%satEvery == satEvery-1 { // a list filled up to the frame limit
+		if k := i / satEvery; k%2 == 0 {
+			return &c05Case{Mode: "ctrl", Recipe: gen.SaturatedController(r, k/2)}
+		} else {
+			return &c05Case{Mode: "switch", Recipe: gen.SaturatedSwitch(r, k/2)}
+		}
+	}
 	switch i % 10 {
 	case 0, 1:
 		kind := gen.ControllerKinds[(i/10)%len(gen.ControllerKinds)]
